@@ -76,13 +76,14 @@ def run(ctx):
     ex = [dict(s, handler="example") for s in forced[::7]]        # a sample against the bundled example store as well
     rng = random.Random(ctx.seed)
     free = free_programs(rng, 5000 if thorough else 300)
-    # every client's first command on a fresh server at the same moment (4 clients, own keys: SET then GET must see it);
-    # three of four against the bundled example store
+    # every client's first command on a fresh server at the same moment (2 clients, own keys: SET then GET must see it);
+    # the schedule is not forced, so many fresh servers are needed (a check-then-store creation of the example store's
+    # database lost a client's write on about 1 in 3000 of them); seven of eight against the bundled example store
     first = []
-    for i in range(6000 if thorough else 1500):
+    for i in range(40000 if thorough else 12000):
         progs = [[{"cls": "lin", "name": "SET", "args": [tok("key", "k%d" % c), tok("str", "v%d%d" % (c, i % 7))]},
-                  {"cls": "lin", "name": "GET", "args": [tok("key", "k%d" % c)]}] for c in range(4)]
-        first.append({"handler": "example" if i % 4 else "ref", "gate": False, "nconns": 4, "setup": [], "programs": progs})
+                  {"cls": "lin", "name": "GET", "args": [tok("key", "k%d" % c)]}] for c in range(2)]
+        first.append({"handler": "example" if i % 8 else "ref", "gate": False, "nconns": 2, "setup": [], "programs": progs})
     scenarios = forced + ex + free + first
     if ctx.replay:
         scenarios = [json.load(open(ctx.replay))["scenario"]]
